@@ -1,7 +1,7 @@
 """C10 - reflowing to a maximum line length preserves meaning and honours the limit (E2 paragraphs x all L)."""
 import re
 import itertools
-from mc import core, trees
+from mc import core, trees, leafspell
 
 ID = 'C10'
 TECHNIQUE = ('exhaustive enumeration of all paragraphs of 1-2/3 (sub-menu 3/4) inline items out of an 11-item menu under every '
@@ -30,6 +30,7 @@ BYSTANDERS = {
 UNTOUCHED = ['atx', 'table', 'fence', 'indented', 'html']
 BOUNDS = {'quick': dict(items=3, sub_items=3, depth=2), 'thorough': dict(items=3, sub_items=4, depth=3)}
 LMAX = 120
+MARKER_WORD = re.compile(r'^(#{1,6}|=+|-+|[-+*]|>.*|\d{1,9}[.)]|\|.*|.*\|)$')
 
 
 def describe(tier):
@@ -49,6 +50,9 @@ def chains(depth):
     # 'n': the paragraph is the SECOND item ("10. ") of an ordered list whose first item ("9. ab") has a narrower marker
     for c in ('n', 'qn', 'nq', 'bn', 'nb'):
         yield c
+    # 'p' / 'P': markers followed by more than one space ("-   ", "1.  "): the content offset is wider than marker + 1
+    for c in ('p', 'P', 'qp', 'pq', 'bp', 'pb', 'pP'):
+        yield c
 
 
 def jobs(tier):
@@ -62,6 +66,8 @@ def jobs(tier):
     for n in range(1, nt + 1):
         ns = 1 if n < 3 else (16 if n == 3 else 128)
         js += [('trees', n, 2 if tier == 'quick' else 3, sh, ns, None) for sh in range(ns)]
+    # every spelling of every leaf block in six contexts (thorough; quick: the two container contexts)
+    js += [j + (tier,) for j in leafspell.jobs()]
     return js
 
 
@@ -76,7 +82,7 @@ def embed(lines, chain):
             lines = ['9. ab'] + [('10. ' if i == 0 else '    ') + l if l else l for i, l in enumerate(lines)]
             prefixes = [''] + [('10. ' if i == 0 else '    ') + p for i, p in enumerate(prefixes)]
         else:
-            m = '- ' if c == 'b' else ('10. ' if c == 'w' else '1. ')
+            m = {'b': '- ', 'w': '10. ', 'o': '1. ', 'p': '-   ', 'P': '1.  '}[c]
             lines = [(m if i == 0 else ' ' * len(m)) + l if l else l for i, l in enumerate(lines)]
             prefixes = [(m if i == 0 else ' ' * len(m)) + p for i, p in enumerate(prefixes)]
     return lines, prefixes
@@ -238,6 +244,21 @@ def run_job(job):
                 r.states += 1
                 check_doc(r, m, None, dict(markdown=m, bystander=None, by_lines=[], length_clause=False), (), length_clause=False)
         r.sample(dict(space='generated trees', nodes=n), 1)
+        return r
+    if job[0] == 'leafspell':
+        ctxs = leafspell.CONTEXTS if job[3] == 'thorough' else ['in-quote', 'in-list-item']
+        for case in leafspell.cases_of_job(job[:3]):
+            if case[0] in ('para', 'setext', 'atx-not', 'hr-not', 'table-not') and any(
+                    MARKER_WORD.match(wd) for l in case[1][:(-1 if case[0] == 'setext' else None)] for wd in l.split()[0 if l is not case[1][0] else 1:]):
+                r.skip('a prose word that reads as a block marker once re-flowed to the start of a line (outside the property\'s domain)')
+                continue
+            for ctx in ctxs:
+                x = leafspell.in_context(case, ctx)
+                if x is None:
+                    continue
+                r.states += 1
+                check_doc(r, x[0], None, dict(markdown=x[0], bystander=None, by_lines=[], length_clause=False), (), length_clause=False)
+        r.sample(dict(space='leaf spellings', family=job[1]), 1)
         return r
     _, chain, k, ksub, by = job
     seqs = []
